@@ -704,7 +704,18 @@ RUN = dict(tcd=run_tcd, blint=run_blint, emergent=run_emergent, angle=run_angle,
 def run_impl(case):
     rng = random.Random(case["sub"])
     obs = {"oracle": [], "tags": ["kind:" + case["kind"]]}
-    return RUN[case["kind"]](case, rng, obs, obs["oracle"].append)
+    try:
+        return RUN[case["kind"]](case, rng, obs, obs["oracle"].append)
+    except core.MachineryError:
+        raise
+    except Exception as e:  # a tool raised on an input of its domain: a property-level failure, no model comparison
+        import traceback
+        tb = traceback.extract_tb(e.__traceback__)
+        where = next((f"{fr.filename.split('/')[-1]}:{fr.lineno}" for fr in reversed(tb) if "discretisedfield" in fr.filename), "harness")
+        obs["oracle"].append(f"{case['kind']}: a tool raised {type(e).__name__} ({str(e)[:120]}) at {where} on a valid input")
+        obs["crashed"] = True
+        obs["tags"].append("crashed")
+        return obs
 
 
 # ------------------------------------------------------------------ model side
@@ -722,6 +733,8 @@ def pick_cells(case, nn):
 
 def model_requests(case, obs):
     k = case["kind"]
+    if obs.get("crashed") or "adapter-crash" in obs.get("tags", []):
+        return []
     if k == "tcd":
         return [dict(op="tcd", field=obs["field"], method="continuous", pi=PI_Q),
                 dict(op="tcd", field=obs["field"], method="berg-luescher", pi=PI_Q),
@@ -788,6 +801,8 @@ def bl_from_cells(ok):
 def compare(case, obs, rs):
     dis = []
     k = case["kind"]
+    if not rs:
+        return dis
     if k == "tcd":
         rc, rb, ro, rori = rs
         qc, qb = obs["res"]["continuous"], obs["res"]["berg-luescher"]
